@@ -20,6 +20,7 @@ from elementpath.xpath_tokens import XPathToken, ProxyToken, XPathFunction, \
     XPathMap, XPathArray
 from elementpath.sequences import xlist
 
+from elementpath.xpath_tokens.functions import COMMENTS_LOOKAHEAD
 from .xpath31_parser import XPath31Parser
 
 __all__ = ['XPath31Parser']
@@ -29,7 +30,7 @@ method = XPath31Parser.method
 function = XPath31Parser.function
 
 register('map', bp=90, label=('kind test', 'map'), bases=(XPathFunction,),
-         pattern=r'(?<!\$)\bmap(?=\s*(?:\(\:.*\:\))?\s*(?=\(|\{)(?!\:))')
+         pattern=rf'(?<!\$)\bmap(?={COMMENTS_LOOKAHEAD}(?=\(|\{{)(?!\:))')
 
 
 @method('map')
@@ -61,7 +62,7 @@ def nud__map_sequence_type_or_constructor(self: XPathFunction) \
 
 
 register('array', bp=90, label=('kind test', 'array'), bases=(XPathFunction,),
-         pattern=r'(?<!\$)\barray(?=\s*(?:\(\:.*\:\))?\s*(?=\(|\{)(?!\:))')
+         pattern=rf'(?<!\$)\barray(?={COMMENTS_LOOKAHEAD}(?=\(|\{{)(?!\:))')
 
 
 @method('array')
